@@ -61,6 +61,9 @@ func genPackageWorld(t *rapid.T, prop string, allowInvalid bool, chunk []string)
 			sc.Steps = append(sc.Steps, Step{Op: "restart"})
 		case k == 13:
 			sc.Steps = append(sc.Steps, Step{Op: "pausePackage", On: rapid.Bool().Draw(t, "on")})
+		case k == 14:
+			// somebody else writes the ObjectDeployment (or Package, ObjectSet ...) between PKO's read and its write
+			sc.Steps = append(sc.Steps, Step{Op: "injectTouch", I: rapid.IntRange(0, 3).Draw(t, "nwrite")}, Step{Op: "reconcile", Ctrl: engine.CtrlPackage})
 		default:
 			sc.Steps = append(sc.Steps, Step{Op: "quiesce"})
 		}
